@@ -2620,8 +2620,21 @@ def builtin_call(I, fr, name, args, kwargs, n):
         if isinstance(v, Rat) and (v.is_const() or v.iszero()) and len(args) == 1:
             return C(round(v.const_value() if not v.iszero() else 0))
         raise Unsupported('round() of a symbolic value', n)
-    if name == 'iter' and (isinstance(args[0], Obj) or is_iter(args[0])):
-        return args[0]              # files and iterators are their own iterators
+    if name == 'iter' and len(args) == 1 and (args[0] is None or isinstance(args[0], (Rat, SumV, bool))):
+        raise _RaisedExc(Raised('TypeError', n))        # a number is not iterable
+    if name == 'iter' and len(args) == 1 and isinstance(args[0], Elem):
+        return args[0]              # a vector of unknown length: iterable
+    if name == 'iter' and isinstance(args[0], Obj) and not is_iter(args[0]):
+        o_ = args[0]
+        if '__lines__' in o_.attrs or '__iter__' in o_.opaque_methods or (
+                o_.ci is not None and (I.repo.find_method(o_.ci, '__iter__', missing_ok=True) or
+                                       I.repo.find_method(o_.ci, '__getitem__', missing_ok=True))):
+            return o_               # files and objects that define iteration
+        if o_.ci is None and not o_.closed and not o_.opaque_methods:
+            raise Unsupported('iter() of an object nothing is known about: %r' % (o_,), n)
+        raise _RaisedExc(Raised('TypeError', n))        # an object without __iter__/__getitem__ is not iterable
+    if name == 'iter' and is_iter(args[0]):
+        return args[0]              # iterators are their own iterators
     if name == 'open':
         fname = args[0] if args else kwargs.get('file')
         mode = args[1] if len(args) > 1 else kwargs.get('mode', 'r')
@@ -4475,7 +4488,6 @@ NATIVE = {
     'pmutt.constants.convert_unit': _c_convert,
     'pmutt.constants.P0': _c_P0,
     'pmutt.constants.T0': _c_T0,
-    'pmutt._is_iterable': _is_iterable,
     'inspect.signature': _inspect_signature,
     'copy.copy': _copy,
     'copy.deepcopy': _copy,
